@@ -625,7 +625,18 @@ Outcome run_c19(const Case &c) {
     PSemaphore *a = p_semaphore_new((name + "s").c_str(), 2, P_SEM_ACCESS_CREATE, &e1);
     PSemaphore *b = p_semaphore_new((name + "s").c_str(), 5, P_SEM_ACCESS_OPEN, &e2);
     PShm *m = p_shm_new((name + "m").c_str(), 128, P_SHM_ACCESS_READWRITE, &e3);
+    // opening what now EXISTS, under the same interruptions: the outcome must be the one an uninterrupted call has (a second handle on the
+    // same 128 bytes that is not an owner), whatever size is asked for
+    PError *e4 = NULL; PShm *m2 = m ? p_shm_new((name + "m").c_str(), 4096, P_SHM_ACCESS_READWRITE, &e4) : NULL;
     storm.stop(); disarm();
+    if (m && !m2) fail("ipc-create", "p_shm_new on an existing segment failed under interruptions: " + errstr(e4));
+    if (m && m2) {
+      if (p_shm_get_size(m2) != p_shm_get_size(m) || p_shm_get_size(m) != 128) fail("ipc-open-existing", "a segment opened under interruptions reports " + std::to_string(p_shm_get_size(m2)) + " bytes, the existing segment has " + std::to_string(p_shm_get_size(m)) + " (created with 128)");
+      else { volatile char *p1 = (volatile char *)p_shm_get_address(m), *p2 = (volatile char *)p_shm_get_address(m2); p1[5] = 0x5A; p1[127] = 0x3C; if (p2[5] != 0x5A || p2[127] != 0x3C) fail("ipc-open-existing", "a segment opened under interruptions does not address the existing segment's bytes"); }
+      p_shm_free(m2); m2 = NULL;
+      if (!vi::exists(vi::shm_file(name + "m")) || !vi::exists(vi::shm_lock_file(name + "m"))) fail("ipc-open-existing", "freeing a handle that merely opened the existing segment (under interruptions) removed the segment's names");
+    }
+    if (e4) p_error_free(e4);
     if (!a) fail("ipc-create", "p_semaphore_new(CREATE) failed under interruptions: " + errstr(e1));
     if (!b) fail("ipc-create", "p_semaphore_new(OPEN) failed under interruptions: " + errstr(e2));
     if (!m) fail("ipc-create", "p_shm_new failed under interruptions: " + errstr(e3));
